@@ -194,6 +194,10 @@ def sample_cfg(name: str, rng, tier: str = "quick", small: bool = True) -> dict:
                       "max_processing_time": rng.choice([5, 20, 20, 4000]),
                       "same_mean_per_op": rng.random() < 0.5}
         cfg["kw"] = {"mask_no_ops": rng.random() < 0.5}
+        if rng.random() < 0.15:
+            # dense per-step rewards (the step-wise PPO set-up): what get_reward(td, actions) reports for the complete
+            # action sequence is still the makespan
+            cfg["kw"]["stepwise_reward"] = True
     elif name == "jssp":
         j, m = (rng.randint(2, 4), rng.randint(2, 3)) if not big else (rng.randint(5, 8), rng.randint(3, 5))
         one2one = rng.random() < 0.5
@@ -204,6 +208,8 @@ def sample_cfg(name: str, rng, tier: str = "quick", small: bool = True) -> dict:
             cfg["gen"]["min_ops_per_job"] = lo
             cfg["gen"]["max_ops_per_job"] = lo + rng.randint(0, 2)
         cfg["kw"] = {"mask_no_ops": rng.random() < 0.5}
+        if rng.random() < 0.15:
+            cfg["kw"]["stepwise_reward"] = True
     elif name == "ffsp":
         cfg["gen"] = {"num_stage": rng.randint(1, 3), "num_machine": rng.randint(1, 3),
                       "num_job": rng.randint(2, 5) if not big else rng.randint(6, 12),
